@@ -76,6 +76,29 @@ CLAIMED = {
         "PARTIAL: TOML round trip only dynamic; same_text_every_layer_partial excludes floats/negative ints/free strings/lists on the Lean side. Trusted: toml 0.10.2 as identity channel.",
         "DESIGN.md section 5, C17",
     ),
+    "C07": (
+        "Lean 4 theorems (per-line decoding, parse/serialize, absolute and non-scrolling cursor-relative choreography) + differential correspondence; real bytes fed to the Lean terminal/decoder specification",
+        "Theorems in lean/Tup/Props/C07.lean for every id, placement id, all 160 modes, any width and formatting: each emitted line decodes to the "
+        "requested cells under Spec.Term + Spec.Decode; table regenerated from /repo equals the pinned protocol table (kernel-checked); absolute "
+        "and non-scrolling at-cursor styles proved end to end. The real to_lines/to_stream bytes are compared with the model and fed to the "
+        "specification terminal (all four styles, scrolling, right margin) to find failing inputs; thorough: Spec.Term validated against tmux 3.3a.",
+        "PARTIAL: scrolling and line-feed choreography theorems are TODO (covered by running the spec on the real bytes). Trusted: Spec.Term/Spec.Decode, pinned table.",
+        "DESIGN.md section 5, C07",
+    ),
+    "C13": (
+        "Lean 4 theorems (line_resets, ends_default, line_alone, formatting confinement) + differential correspondence with subsets/permutations of lines fed to the spec terminal",
+        "Theorems in lean/Tup/Props/C13.lean for any terminal state and background-only formatting; the real lines (all formatting kinds) alone, in "
+        "subsets and permuted are fed to Spec.Term from arbitrary SGR states and judged by Spec.Decode and the final SGR state.",
+        "PARTIAL: confinement under scrolling / line-feed styles by correspondence only; arbitrary caller formatting bytes by correspondence only.",
+        "DESIGN.md section 5, C13",
+    ),
+    "C14": (
+        "Lean 4 theorems (fg_truecolor_iff, third_diacritic_iff, display_decodes) composing the ID-space and placeholder models + real display_only in a pty child",
+        "Theorems in lean/Tup/Props/C14.lean for every id of every space, rectangle and fewer_diacritics; the real high-level display path is run "
+        "for byte-class/random ids (thorough: every id of the three enumerable spaces) and judged by the layout and decoding specifications.",
+        "Trusted: Lean kernel; Spec.Layout, Spec.Decode; pty hosting of TupimageTerminal.",
+        "DESIGN.md section 5, C14",
+    ),
     "C09": (
         "Lean 4 theorems over a model of the upload's I/O program + fault enumeration of the real code at every write/flush",
         "Theorems in lean/Tup/Props/C09.lean: for every list of escape codes and every fault position/kind the error surfaces and "
